@@ -258,8 +258,9 @@ def plan(pid, tier):
     P['C15'] = lambda: rc_jobs('h_state', 'c15', 16, 2500 if q else 40000)
     P['C16'] = lambda: (rc_jobs('h_state', 'c16', 14, 1200 if q else 20000) + sweep_jobs('h_state', 'c16_pairs', 2))
     P['C17'] = lambda: (sweep_jobs('h_fault', 'c17_single', 6) + rc_jobs('h_fault', 'c17', 10, 400 if q else 6000))
-    P['C19'] = lambda: (rc_jobs('h_codec', 'c19', 6, 1500 if q else 30000) + sweep_jobs('h_codec', 'c19_sweep', 6 if q else 12) + rc_jobs('h_codec', 'c19_inv', 3, 800 if q else 10000)
+    P['C19'] = lambda: (rc_jobs('h_codec', 'c19', 6, 1500 if q else 30000) + sweep_jobs('h_codec', 'c19_sweep', 6 if q else 12) + rc_jobs('h_codec', 'c19_inv', 3, 800 if q else 10000) + sweep_jobs('h_codec', 'c19_singular', 3 if q else 8)
                         + sweep_jobs('h_needed', 'c06_rs_sweep', 2 if q else 8, extra=['--only_isa', '1']))
+    P['C18'] = lambda: rc_jobs('t_race', 'c18_tsan', 16, 250 if q else 5000, variant='tsan')
     P['C20'] = lambda: rc_jobs('h_codec', 'c20', 16, 1500 if q else 40000)
     if pid not in P:
         return None
@@ -285,6 +286,7 @@ RULES = {
     'C16': 'histories (<=300 steps) mixing valid calls with cleanup, beyond-tolerance/duplicated/insufficient sets, damaged headers, invalid arguments, failing creates and dead-descriptor probes; ASan reports double free / use-after-free at once, LeakSanitizer recoverable check after destroying all instances at the end of each history; plus one encode/decode/cleanup/destroy + leak check per shape. Non-trivial: at least one failing call and one successful rebuild in the history.',
     'C17': 'fault enumeration: the back end operation tables are patched with wrappers that fail chosen call numbers (three modes: fail before the work, do the work then report failure, another negative code). Enumerated: a scripted workload (create, 3 encodes, decode with lost data / lost parity, reconstruct data / parity, 2 fragments_needed, second create, destroy, encode, decode) per back end x every call position of init/encode/decode/reconstruct/fragments_needed x 3 modes; generated: random workloads with random fault sets. Oracle: public rc<0 for the faulted call, no cleanup call made and LeakSanitizer clean, immediate retry succeeds with exact results, registry usable, plugin dlopen reference returned. Non-trivial: at least one injected fault was reached.',
     'C19': 'both ISA-L adapters on the clean-room libisal.so.2: enumerated - every (k,m) with k+m<=8 (quick) / 12 (thorough), every erasure set |E|<=m+1, decode + reconstruct of every lost index and one present index, two table encodings of the stand-in (adapter must treat tables as opaque); generated - all shapes to k+m=32 with permutations/duplicates/alignment; injected inversion failures (the stand-in fails the next gf_invert_matrix call): public call must fail, LeakSanitizer clean, retry exact; fragments_needed for the adapters with the C06 oracle. Oracle: exact when the first k surviving generator rows are invertible over GF(2^8) (independent model), error when the survivors have rank < k, either when only another subset is invertible. Non-trivial: a data fragment erased or a lost destination rebuilt; an inversion failure actually injected.',
+    'C18': 'tier 1 (ThreadSanitizer): generated workloads of 2..16 threads released by a barrier, each thread running its own create/use/destroy cycles of mixed back ends (concurrent first-ever RS creates are generated on purpose), held instances, and encode/decode/reconstruct/queries on 0..2 shared descriptors, with generated yield paddings; oracle: no TSan report during the workload, every result equals the sequential reference (independent serializer / original data), descriptors of overlapping lifetimes distinct, shared instances intact afterwards. tier 2 (controlled schedules under ASan, guarded yield hooks): see per_mode c18_sched*. Non-trivial: >=2 threads with at least one operation each.',
     'C20': 'rapidcheck-generated (configuration with CRC32, data, presented multiset, damaged subset: payload bit flips, re-sealed header field edits, unsealed header damage), decode with force=1. Non-trivial: at least one damaged DATA fragment.',
 }
 LEVELS = {'C17': 'fault_enumeration'}
@@ -336,10 +338,13 @@ def replay_case(pid, path, vdirs, times=3):
     exe = os.path.join(vdir, harness)
     fails = 0
     for _ in range(times):
-        r = subprocess.run([exe, '--prop', pid, '--replay', path], stdout=subprocess.PIPE, stderr=subprocess.PIPE, text=True,
-                           env=run_env(vdir), cwd=VERIF, timeout=600)
-        if r.returncode != 0:
-            fails += 1
+        try:
+            r = subprocess.run([exe, '--prop', pid, '--replay', path], stdout=subprocess.PIPE, stderr=subprocess.PIPE, text=True,
+                               env=run_env(vdir), cwd=VERIF, timeout=180)
+            if r.returncode != 0:
+                fails += 1
+        except subprocess.TimeoutExpired:
+            fails += 1      # a hang while replaying an already failing case counts as a failing replay
     return fails
 
 
@@ -355,9 +360,10 @@ for _m in ['c14', 'c14_exhaustive', 'c15', 'c16', 'c16_pairs']:
     MODE_HARNESS[_m] = ('h_state', 'asan')
 for _m in ['c17', 'c17_single']:
     MODE_HARNESS[_m] = ('h_fault', 'asan')
+MODE_HARNESS['c18_tsan'] = ('t_race', 'tsan')
 for _m in ['c07', 'c07_sweep', 'c08', 'c08_sweep', 'c04_matrix', 'c04_parity', 'c05_tables', 'c05_encode', 'c05_unsupported']:
     MODE_HARNESS[_m] = ('h_format', 'asan')
-for _m in ['c19', 'c19_sweep', 'c19_inv', 'c05_decode_sweep', 'c01', 'c01_xor_sweep', 'c01_rs_sweep', 'c01_isa_sweep', 'c02', 'c02_subsets', 'c02_band', 'c03', 'c03_xor_sweep', 'c03_rs_sweep', 'c20']:
+for _m in ['c19', 'c19_sweep', 'c19_inv', 'c19_singular', 'c05_decode_sweep', 'c01', 'c01_xor_sweep', 'c01_rs_sweep', 'c01_isa_sweep', 'c02', 'c02_subsets', 'c02_band', 'c03', 'c03_xor_sweep', 'c03_rs_sweep', 'c20']:
     MODE_HARNESS[_m] = ('h_codec', 'asan')
 
 
@@ -473,7 +479,7 @@ def main_check(pid, tier, seed):
     violations, unreproduced, known_hits = [], [], []
     seen = set()
     for ff in fail_files:
-        if ff in seen or not os.path.exists(ff):
+        if ff in seen or not os.path.exists(ff) or os.path.getsize(ff) == 0:
             continue
         seen.add(ff)
         nfail = replay_case(pid, ff, vdirs)
